@@ -113,7 +113,9 @@ func runCheck(id, tier string, o runOpts) int {
 	}()
 
 	// second reading: obligations that fail with helper predicates opaque are decided again with the helpers'
-	// bodies in place of the calls (equivalent conditions); holding under either reading is holding.
+	// bodies in place of the calls (equivalent conditions); holding under either reading is holding. (Reading helpers
+	// the rule tables know in place of their *statement* calls as well was tried and dropped: it changes the terms that
+	// term-comparing rules look at, and four recorded detections were discharged by it.)
 	if len(rep.ByStatus(an.Violation))+len(rep.ByStatus(an.Undecided)) > 0 {
 		w2 := an.NewWorld(p)
 		w2.Vocab = w.Vocab
@@ -133,12 +135,12 @@ func runCheck(id, tier string, o runOpts) int {
 				continue
 			}
 			if ob2 := second[ob.Key()]; ob2 != nil && ob2.St() == an.OK {
-				ob.Discharge("holds with helper predicates replaced by their bodies. " + ob2.Detail)
+				ob.Discharge("holds with helpers read in place of their calls. " + ob2.Detail)
 				n++
 			}
 		}
 		if n > 0 {
-			rep.Note("%d obligation(s) decided on the second reading (helper predicates inlined)", n)
+			rep.Note("%d obligation(s) decided on the second reading (helpers read in place of their calls)", n)
 		}
 	}
 	for _, rn := range w.Renamed {
